@@ -123,7 +123,52 @@ func (e *wexpr) isConst() bool {
 	return true
 }
 
+// wLitSalt != 0: literals are spelled in one of the other forms the WGSL grammar allows (hex integers; `3.f`, `3f`, `3e0f`,
+// `3.e0f`, `30e-1f`, `.3e1f`, `0x3p0f`, `0x3.p0f`, `0x1.8p1f` …), chosen by value and salt so that every rendering of a
+// module spells a given literal the same way.  The type suffix is kept: the spelling never changes the literal's type.
+var wLitSalt uint32
+
+// wNoHexFloat: the hexadecimal float spellings fall back to the plain decimal one (C08: is a rejection caused by them?).
+var wNoHexFloat bool
+
+// wHexFloats: the hexadecimal float spellings are allowed at all (C08 only).
+var wHexFloats bool
+
+func litSpell(bits uint32, n int) int {
+	if wLitSalt == 0 {
+		return 0
+	}
+	return int(((bits+1)*2654435761 ^ wLitSalt) >> 7 % uint32(n))
+}
+
 func litStr(t *wty, bits uint32) string {
+	if wLitSalt != 0 {
+		switch t.k {
+		case "i32":
+			if v := int32(bits); v >= 0 && !wBareInts {
+				return fmt.Sprintf([]string{"%di", "0x%xi", "0X%Xi", "%di"}[litSpell(bits, 4)], v)
+			}
+		case "u32":
+			return fmt.Sprintf([]string{"%du", "0x%xu", "0X%Xu", "%du"}[litSpell(bits, 4)], bits)
+		case "f32":
+			if v := int32(bits); v >= 0 {
+				forms := []string{"%d.0f", "%d.f", "%d.0e+0f", "%de0f", "%d.e0f", "%d0e-1f", "0x%xp0f", "0x%x.p0f", "0x%x.0p+0f", "%d.0E0f", "0X%XP0f"}
+				if v > 0 {
+					forms = append(forms, "%df", ".%de1f") // `0f` is fine but `.0e1f` too; keep zero to the common forms
+				} else {
+					forms = append(forms, "0f", ".0f")
+				}
+				f := forms[litSpell(bits, len(forms))]
+				if (wNoHexFloat || !wHexFloats || wLitSalt&6 != 0) && (strings.HasPrefix(f, "0x") || strings.HasPrefix(f, "0X")) {
+					f = "%d.0f" // hexadecimal floats (a recorded finding: not lexed) only in one salted module in four
+				}
+				if strings.Contains(f, "%") {
+					return fmt.Sprintf(f, v)
+				}
+				return f
+			}
+		}
+	}
 	switch t.k {
 	case "i32":
 		v := int32(bits)
@@ -2066,6 +2111,10 @@ func genModule(c *ctx, o wgenOpts) (*wmodule, map[string]int) {
 		addFwdNest(c, g.m)
 		g.f("forwarded-continue-through-two-switches")
 	}
+	if o.preLetBoost {
+		addPreLetLoop(c, g.m)
+		g.f("break-if-on-let-observable")
+	}
 	return g.m, g.feat
 }
 
@@ -2082,6 +2131,12 @@ func hasNegLit(e *wexpr) bool {
 }
 
 func defaultGenOpts(c *ctx) wgenOpts {
+	// one module in four spells its literals in the other forms of the grammar (see wLitSalt); the hexadecimal float forms
+	// (recorded finding C08-hex-float-literal-rejected) only where wHexFloats is set (the acceptance sweep of C08)
+	wLitSalt = 0
+	if c.chance(0.25) {
+		wLitSalt = c.rng.Uint32() | 1
+	}
 	return wgenOpts{shadowUse: c.chance(0.1), swBreak: c.chance(0.3), absU: c.chance(0.1), negInit: c.chance(0.1), vecInit: c.chance(0.1), rawShift: c.chance(0.1), clz: c.chance(0.1), privInit: c.chance(0.3), contCall: c.chance(0.1), ptrLet: c.chance(0.35), maxStmts: 6 + c.rng.Intn(14), maxDepth: 1 + c.rng.Intn(3), floats: c.chance(0.5), helpers: c.rng.Intn(4), structs: c.chance(0.5)}
 }
 
@@ -2172,6 +2227,33 @@ func addFwdNest(c *ctx, m *wmodule) {
 			outer, {k: "opassign", op: "+", lhs: outAt(12), e: lit(1)}},
 		els: []*wstmt{{k: "assign", lhs: iv, e: &wexpr{k: "bin", ty: tU32, op: "+", args: []*wexpr{iv, lit(1)}}}}}
 	blk := &wstmt{k: "block", body: []*wstmt{{k: "var", name: "ifw", ty: tU32, e: lit(0)}, loop}}
+	body := m.entry.body
+	n := len(body)
+	if n > 0 && body[n-1].k == "return" {
+		body = append(append(append([]*wstmt{}, body[:n-1]...), blk), body[n-1])
+	} else {
+		body = append(body, blk)
+	}
+	m.entry.body = body
+}
+
+
+// addPreLetLoop appends to main a counting loop whose exit test looks at the counter's value from before the increment,
+// bound by a `let` in the continuing block, and whose body is observable once per iteration:
+// `var ipl = 0u; loop { outp[11] += 1u; continuing { let lpl = ipl; ipl = ipl + 1u; break if lpl >= N; } }` — N + 1 trips.
+func addPreLetLoop(c *ctx, m *wmodule) {
+	lit := func(v uint32) *wexpr { return &wexpr{k: "lit", ty: tU32, bits: v, konst: true, small: v <= 8} }
+	outAt := func(i uint32) *wexpr {
+		return &wexpr{k: "idx", ty: tU32, args: []*wexpr{{k: "var", ty: tArr(0, tU32), name: "outp"}, lit(i)}}
+	}
+	iv := &wexpr{k: "var", ty: tU32, name: "ipl"}
+	lv := &wexpr{k: "var", ty: tU32, name: "lpl"}
+	loop := &wstmt{k: "loop",
+		body: []*wstmt{{k: "opassign", op: "+", lhs: outAt(11), e: lit(1)}},
+		els: []*wstmt{{k: "let", name: "lpl", ty: tU32, e: iv},
+			{k: "assign", lhs: iv, e: &wexpr{k: "bin", ty: tU32, op: "+", args: []*wexpr{iv, lit(1)}}}},
+		brk: &wexpr{k: "bin", ty: tBool, op: ">=", args: []*wexpr{lv, lit(uint32(1 + c.rng.Intn(3)))}}}
+	blk := &wstmt{k: "block", body: []*wstmt{{k: "var", name: "ipl", ty: tU32, e: lit(0)}, loop}}
 	body := m.entry.body
 	n := len(body)
 	if n > 0 && body[n-1].k == "return" {
